@@ -195,3 +195,9 @@ def run(ctx):
     idw = writers.get("input_data", [])
     takes = [bb for bb, t in ri.calls() if M.callee_str(t["f"]) == "std::option::Option::<T>::take" and M.noref(T.operand(t["args"][0])) == ("field", E.selfp, "stdin")]
     ctx.ob("R04.6", "input-dropped-only-when-done", all(dominated_by_blocks(ri, b, takes, start=min(E.loop)) for _, b in idw), ri.loc(0), "input_data is replaced only after stdin was closed (nothing undelivered is thrown away)")
+
+
+def run_thorough(ctx):
+    # the cfg(windows) sibling implementation, analysed on the windows-msvc build
+    import winrules
+    winrules.c04_recv_deadline(ctx)
